@@ -386,4 +386,22 @@ Section InterpProofs.
     - destruct (p_ichunk (text ++ r)) as [[|? ?] ?]; [discriminate|inversion P].
   Qed.
   Local Close Scope N_scope.
+
+  (* the clauses in the shape Props/C17.v states them *)
+  Local Open Scope N_scope.
+  Theorem interp_items_in_bounds s its t : interp_lex s = Some its -> In t its -> istart t < iend t /\ iend t <= blen s.
+  Proof. intros H I. destruct (itiles_bounds _ _ _ (interp_tiles _ _ H) _ I) as (_ & A & B). split; [exact A|exact B]. Qed.
+  Theorem interp_items_tile s its : interp_lex s = Some its ->
+    (forall t ts, its = t :: ts -> istart t = 0) /\
+    (forall l1 t1 t2 l2, its = l1 ++ t1 :: t2 :: l2 -> iend t1 = istart t2) /\
+    (forall l t, its = l ++ [t] -> iend t = blen s) /\
+    (its = [] -> s = []).
+  Proof.
+    intros H. pose proof (interp_tiles _ _ H) as Tl. repeat split.
+    - intros t ts ->. exact (itiles_first _ _ _ _ Tl).
+    - exact (itiles_contiguous _ _ _ Tl).
+    - intros l t E. rewrite (itiles_last _ _ _ Tl _ _ E). reflexivity.
+    - intros ->. exact (itiles_empty _ _ Tl).
+  Qed.
+  Local Close Scope N_scope.
 End InterpProofs.
